@@ -103,6 +103,29 @@ where
     }
 }
 
+#[cfg(feature = "verif-hooks")]
+impl<T> Table<T>
+where
+    T: Default,
+{
+    /// Create a table of size `2^bits` with `2^bucket_bits` buckets.
+    pub fn with_buckets(bits: usize, bucket_bits: usize) -> Self {
+        let mut table = Self::new(bits);
+        let buckets_size = 1usize << bucket_bits;
+        table.buckets = vec![0; buckets_size];
+        table.bitmask = (buckets_size - 1) as u64;
+        table
+    }
+}
+
+#[cfg(feature = "verif-hooks")]
+impl<T> Table<T> {
+    /// Index of the first possibly free cell.
+    pub fn min_free(&self) -> usize {
+        self.min_free
+    }
+}
+
 impl<T> Table<T> {
     /// Get the capacity of the table.
     pub fn capacity(&self) -> usize {
